@@ -8,6 +8,10 @@ nil map, division, nil dereference, channel misuse, each between trace lines
 and recovered) compiled by llgo and by go, compared line by line."""
 import os, re, json
 import vlib, e2e, ll2v
+import importlib.util
+_sp = importlib.util.spec_from_file_location("c03assertgen", os.path.join(os.path.dirname(os.path.abspath(__file__)), "assertgen.py"))
+assertgen = importlib.util.module_from_spec(_sp)
+_sp.loader.exec_module(assertgen)
 
 H = os.path.dirname(os.path.abspath(__file__))
 INTS = [("int8", 8, True), ("int16", 16, True), ("int32", 32, True), ("int64", 64, True),
@@ -239,10 +243,96 @@ def run(ck):
                              {"probe": name, "llgo": a2[2], "go": b2[2], "llgo_rc": a2[0]})
         classes["segv"] = len(SEGV) * 2
     ck.phase("probes done")
-    ck.add_cov(evaluations=len(terms) + nlines, nontrivial=len(terms) + nlines // 2,
+
+    # ---------- type assertions: matrix program vs Coq model (C03.Assert) and vs go; emitted test kind from the IR ----------
+    cs = assertgen.cases()
+    ad = os.path.join(ck.work, "assert")
+    e2e.write_module(ad, {"main.go": assertgen.program(cs)})
+    r1, o1 = L.build(ad, os.path.join(ad, "p_llgo"), timeout=1500)
+    r2, o2 = e2e.go_build(ad, os.path.join(ad, "p_go"))
+    n_assert = 0
+    if r1 != 0 or r2 != 0:
+        ck.correspondence_broken("e2e-assert-build", (o1 + o2)[-2000:])
+    else:
+        a = L.run_bin(os.path.join(ad, "p_llgo"), timeout=120)
+        b = e2e.run_plain(os.path.join(ad, "p_go"), timeout=120)
+
+        def outcomes(text):
+            d = {}
+            for l in text.splitlines():
+                m = re.match(r"a(\d+) (ok|notok|PANIC)\s*(.*)$", l)
+                if m:
+                    d[int(m.group(1))] = (m.group(2), m.group(3))
+            return d
+        oa, ob = outcomes(a[2]), outcomes(b[2])
+        if len(ob) != len(cs) or b[0] != 0:
+            ck.correspondence_broken("assert-reference-run", "go printed %d of %d outcomes, rc %s" % (len(ob), len(cs), b[0]))
+
+        def describe(n):
+            si, d, tg, ok = cs[n]
+            tn = assertgen.TYPES[tg[1]][0] if tg[0] == "c" else assertgen.IFACES[tg[1]][0]
+            return "%s x.(%s) with x of static type %s holding %s" % ("v, ok :=" if ok else "v :=", tn, assertgen.IFACES[si][0],
+                                                                       "nil" if d is None else assertgen.TYPES[d][1])
+        seen = set()
+        for n in range(len(cs)):
+            if oa.get(n) != ob.get(n):
+                si, d, tg, ok = cs[n]
+                tn = assertgen.TYPES[tg[1]][0] if tg[0] == "c" else assertgen.IFACES[tg[1]][0]
+                key = "type-assert-%s-%s-to-%s" % (assertgen.IFACES[si][0], "nil" if d is None else re.sub(r"\W+", "_", assertgen.TYPES[d][0]), re.sub(r"\W+", "_", tn))
+                if key in seen:
+                    continue
+                seen.add(key)
+                if len(seen) <= 12:
+                    ck.violation(key, "%s: llgo %s, go %s" % (describe(n), oa.get(n), ob.get(n)), {"case": n, "llgo": oa.get(n), "go": ob.get(n), "what": describe(n)})
+        n_assert = len(cs)
+        code = {"ok": "AOk", "notok": "ANotOk", "PANIC": "APanic"}
+        hdr = "From LLGoV Require Import Lib.Common C03.Assert.\nFrom Coq Require Import List. Import ListNotations.\n"
+        aterms = ["(%s, %s)" % (assertgen.coq_case(c), code.get(oa.get(n, ("missing",))[0], "APanic")) for n, c in enumerate(cs)]
+        missing = [n for n in range(len(cs)) if n not in oa]
+        if missing:
+            ck.correspondence_broken("assert-llgo-run", "llgo printed no outcome for %d cases (rc %s), first %s" % (len(missing), a[0], describe(missing[0])))
+        bad = ck.coq_mismatches(hdr, aterms, "run_case", "aout_eqb", "c03_assert", shard=400)
+        bad = [i for i in bad if i not in missing]
+        if bad:
+            ck.correspondence_broken("C03.Assert/outcome", {"n": len(bad), "first": describe(bad[0]), "llgo": oa.get(bad[0])})
+    # emitted test kind
+    rc, ir = vlib.sh([gen, "."], cwd=ad, env=L.env(), timeout=900)
+    kinds_seen = {}
+    if rc != 0:
+        ck.correspondence_broken("verifgen-run-assert", ir[-1500:])
+    else:
+        fns = ll2v.split_functions(ir)
+        kterms, kraw = [], []
+        for n, c in enumerate(cs):
+            f = fns.get("verifprog.a%d" % n)
+            body = "\n".join(f[1]) if f else ""
+            if 'Implements"(' in body:
+                k = 1
+            elif 'MatchesClosure"(' in body:
+                k = 2
+            elif re.search(r"icmp ne ptr %\d+, null", body):
+                k = 0
+            elif re.search(r"icmp eq ptr %\d+, (getelementptr|@)", body):
+                k = 3
+            else:
+                k = 9
+            kinds_seen[k] = kinds_seen.get(k, 0) + 1
+            si, d, tg, ok = c
+            t = "TConc (%s)" % assertgen.coq_desc(tg[1]) if tg[0] == "c" else "TIface %d [%s]" % (tg[1], ";".join(str(m) for m in assertgen.IFACES[tg[1]][1]))
+            kterms.append("((%d, %s), %d)" % (si, t, k))
+            kraw.append(n)
+        hdr = "From LLGoV Require Import Lib.Common C03.Assert.\nFrom Coq Require Import List Arith. Import ListNotations.\n"
+        badk = ck.coq_mismatches(hdr, kterms, "kind_case", "Nat.eqb", "c03_assert_kind", shard=400)
+        ck.obligations.append(("gen_assert_test_kind_matches_model (%d functions)" % len(kterms), not badk,
+                               "vm_compute; kinds seen %s; mismatching: %s" % (kinds_seen, [kraw[i] for i in badk][:8])))
+        if badk:
+            n0 = kraw[badk[0]]
+            ck.broken.append("obligation:gen_assert_test_kind_matches_model a%d" % n0)
+    ck.phase("type assertions done")
+    ck.add_cov(evaluations=len(terms) + nlines + n_assert, nontrivial=len(terms) + nlines // 2 + n_assert,
                samples=[{"ir_function": terms[0][4][2], "key": terms[0][2], "term": terms[0][3]} if terms else {},
                         {"probe": "s[lo:hi:max] for L in {0,1,3}, C in {L,L+2}, lo/hi/max in -1..6 (panic or len/cap)"}],
-               ir_functions=len(terms), untranslatable=len(untrans), probe_lines=nlines, classes=classes)
+               ir_functions=len(terms), untranslatable=len(untrans), probe_lines=nlines, classes=classes, type_assertion_cases=n_assert, assertion_test_kinds={str(k): v for k, v in kinds_seen.items()})
     ck.cov["rule"] = ("T2: index functions (3 kinds x 8 index types x read/write) for 64- and 32-bit int, IR prefix vs recipe in Coq; "
                       "E: probe lines = one per (construct, operand tuple) around the bounds, compared with the reference toolchain; "
                       "nontrivial counted as IR functions + half of the probe lines (each probe prints a verdict line and a value line)")
